@@ -198,6 +198,16 @@ pub fn check(case: &Case) -> CheckResult {
 
 const TOKEN_CHARS: &[(u32, &str)] = &[(20, "a"), (6, "b"), (6, "1"), (3, "-"), (3, "."), (3, "/"), (2, "_"), (2, ":"), (2, "="), (2, "+"), (2, "~"), (1, "["), (1, "]"), (1, "!"), (1, "#"), (1, "é"), (1, "€"), (1, "@"), (1, ","), (1, "<"), (1, ">")];
 
+/// a digest-like token: hexadecimal digits in either case, or any other token
+fn digest(t: &mut Tape) -> String {
+    if t.chance(2, 3) {
+        let n = t.range(1, 12);
+        (0..n).map(|_| *t.pick(&['0', '1', '9', 'a', 'b', 'd', 'f', 'A', 'C', 'E', 'F'])).collect()
+    } else {
+        token(t, "")
+    }
+}
+
 /// a non-empty token without any (Unicode) whitespace
 fn token(t: &mut Tape, forbid: &str) -> String {
     let mut s = String::new();
@@ -308,7 +318,7 @@ impl PropImpl for C18 {
                     Case::Reject(ty, s)
                 }
             }
-            1 => Case::Checksum(t.below(4) as u8, token(t, ""), t.below(65536) * t.range(1, 1000), token(t, "")),
+            1 => Case::Checksum(t.below(4) as u8, digest(t), t.below(65536) * t.range(1, 1000), token(t, "")),
             2 => {
                 let mut extra: Vec<(String, String)> = vec![];
                 while t.more(extra.len(), 0, 3, 1, 2) {
@@ -365,14 +375,16 @@ impl PropImpl for C18 {
             }
             10 | 11 => {
                 let kind = t.below(3) as u8;
-                let mut text = line(t);
+                // the text may be empty (Named(name, "") is written "name\n"); an empty name is canonical only for Name
+                let mut text = if t.chance(1, 5) { String::new() } else { line(t) };
                 while t.more(0, 0, 1, 2, 3) {
                     text.push('\n');
                     if t.chance(3, 4) {
                         text.push_str(&line(t));
                     }
                 }
-                Case::License { kind, name: line(t), text }
+                let name = if kind == 0 && t.chance(1, 8) { String::new() } else { line(t) };
+                Case::License { kind, name, text }
             }
             12 => Case::SigPath(format!("/{}", token(t, ""))),
             _ => {
@@ -404,7 +416,20 @@ impl PropImpl for C18 {
             Case::SigBlock(t) => (if t.contains('\n') { "signature:key-block-multi-line" } else { "signature:key-block-single-line" }, true),
         };
         ctx.label(label);
+        match case {
+            Case::Checksum(_, h, _, _) => ctx.label_if(h.chars().all(|c| c.is_ascii_hexdigit()) && h.chars().any(|c| c.is_ascii_uppercase()), "checksum:upper-case-hex-digest"),
+            Case::License { text, name, .. } => {
+                ctx.label_if(text.is_empty(), "license:empty-text");
+                ctx.label_if(name.is_empty(), "license:empty-name");
+            }
+            _ => {}
+        }
         ctx.nontrivial = nt;
+    }
+    fn expected_labels(&self) -> Vec<&'static str> {
+        vec!["keyword", "rejection", "checksum", "checksum:upper-case-hex-digest", "package-list", "package-list-with-extras", "changes-file", "build-profile", "vcs:plain", "vcs:branch", "vcs:subpath", "vcs:branch+subpath",
+            "Vcs::Git", "Vcs::Bzr", "Vcs::Hg", "Vcs::Svn", "Vcs::Cvs", "forwarded-yes", "origin-with-category", "origin", "applied-upstream", "license:name", "license:text", "license:named", "license:empty-text", "license:empty-name",
+            "signature:key-path", "signature:key-block-multi-line", "signature:key-block-single-line"]
     }
     fn check(&self, _ctx: &mut Ctx, case: &Case) -> CheckResult {
         check(case)
